@@ -1392,7 +1392,10 @@ func (cc *ClientConn) awaitOpenSlotForStreamLocked(cs *clientStream) error {
 			return errClientConnUnusable
 		}
 		cc.lastIdle = time.Time{}
-		if cc.currentRequestCountLocked() < int(cc.maxConcurrentStreams) {
+		// Reservations are not counted here: this request has already given
+		// its own back, and any others belong to requests queued behind it
+		// on reqHeaderMu, which cannot proceed until this one does.
+		if len(cc.streams)+cc.pendingResets < int(cc.maxConcurrentStreams) {
 			return nil
 		}
 		cc.pendingRequests++
